@@ -342,6 +342,21 @@ def C12(tier, seed):
     progs = ['F1', 'H2', 'F1_after_exit', 'F1_before_transition', 'F1_after_transition_action'] + (['R2', 'A', 'H2_after_transition_action'] if tier == 'thorough' else [])
     oracle_units(chk, progs, be, 'C12', throws=True, proj=('G', 'A', 'E', 'X', 'N', 'C'), opts={'defines': ['VF_THROW_ON 1']},
                  bfs_depth=5, max_confs=(30 if tier == 'thorough' else 10), timeout=90, strats=['nk', 'nkG', 'pk'])
+    # "the machine is not wedged": an exception aborts the entry cascade of a submachine that the switch policy leaves active
+    lprogs = ['H2', 'H2_before_transition'] + (['H2_after_exit', 'H2_after_transition_action'] if tier == 'thorough' else [])
+    for pname in lprogs:
+        prog = catalog.CATALOG[pname]()
+        confs, _ = model.bfs(prog, [('start',)] + [('ev', e) for e in prog.events], max_depth=5, max_confs=200, throws=True, keep_unspec=True)
+        confs = [c for c in confs if c[0].unspec and all(any(c[0].m[pm.name]['active'][r] == st.name for pm in c[0].active_machines() for r in range(len(pm.regions)) for st in [pm.states[c[0].m[pm.name]['active'][r]]] if st.kind == 'sub' and st.sub.name == un) for un in c[0].unspec)]
+        if not confs: continue
+        cpp = emit.emit_cpp(prog, {'defines': ['VF_THROW_ON 1']})
+        h, index = emit.emit_liveness_harness(prog, confs, 'C12', ('G', 'A', 'E', 'X', 'N', 'C'))
+        for b in [b for b in be if b != 2]:      # H2 has an sm-internal table: not back11
+            u = runner.Unit('C12live_%s' % prog.name, b, cpp, h, index, exc=True)
+            u.nevents = len(prog.events); u.spec = {'prog': prog.name, 'tag': 'C12live'}
+            chk.add_unit(u)
+            for hi in range(len(index)): chk.jobs.append(Job(u, hi, unwind=6, timeout=90, strats=['nk', 'pk']))
+        chk.bounds.setdefault('programs', {})['C12live_' + prog.name] = {'configurations': len(confs), 'events': len(prog.events)}
     chk.assumptions.append('C12: translation units are lowered with exceptions enabled; throw / unwind / landing pads are modelled by ll2c (pending-exception flag checked after every call that may unwind; catch clauses matched through the typeinfo base-class chain); only exceptions derived from std::exception thrown by behaviours are exercised, one fault per step, faulting steps are part of the enumerated prefixes (repeated faults)')
     return chk
 
